@@ -282,3 +282,105 @@ func zzH10_hash() {
 	zzAssert(zzAnd(ok, got == int64(h)), "C10.hash.java")
 	zzReach("end")
 }
+
+// zzWShl returns w << s for 0 <= s < 128 (no branches on s).
+func zzWShl(w zzW, s uint) zzW {
+	s1 := s & 63
+	lo1 := w.lo << s1
+	hi1 := uint64(w.hi)<<s1 | zzIteU64(s1 == 0, 0, w.lo>>((64-s1)&63))
+	big := s >= 64
+	return zzW{int64(zzIteU64(big, lo1, hi1)), zzIteU64(big, 0, lo1)}
+}
+
+// zzWSar returns floor(w / 2^s) (arithmetic shift) for any s >= 0.
+func zzWSar(w zzW, s uint) zzW {
+	sign := w.hi >> 63 // 0 or -1
+	s1 := s & 63
+	lo1 := w.lo>>s1 | zzIteU64(s1 == 0, 0, uint64(w.hi)<<((64-s1)&63))
+	hi1 := w.hi >> s1
+	r64 := zzW{sign, uint64(w.hi >> s1)} // s in [64,128): lo = hi >> (s-64), hi = sign
+	r := zzW{zzIteI64(s >= 64, r64.hi, hi1), zzIteU64(s >= 64, r64.lo, lo1)}
+	all := zzW{sign, uint64(sign)}
+	return zzW{zzIteI64(s >= 128, all.hi, r.hi), zzIteU64(s >= 128, all.lo, r.lo)}
+}
+
+// H10.5: << and >> through Binary: exact results (x * 2^s, floor(x / 2^s)) for symbolic
+// operands and symbolic shift counts; negative counts and << by >= 512 are rejected.
+//
+//verif:unwind 80
+//verif:concretize 200
+//verif:config generic posix64
+func zzH10_shift() {
+	B := zzParam("shift_bits", 36, 40)
+	x, xv := zzSymInt("x", B)
+	s := zzI32("s")
+	maxs := int32(zzParam("shift_max", 70, 130))
+	zzAssume(zzAnd(s >= -2, s <= maxs))
+	left := zzChoice("left", 2) == 1
+	op := syntax.GTGT
+	if left {
+		op = syntax.LTLT
+		zzAssume(int(s)+B <= 126) // result fits the 128-bit reference
+	}
+	var v Value
+	var err error
+	panicked := zzCatch(func() { v, err = Binary(op, x, MakeInt64(int64(s))) })
+	zzAssert(zzNot(panicked), "C10.shift.nopanic")
+	if panicked {
+		return
+	}
+	zzAssert((err != nil) == (s < 0), "C10.shift.negative_rejected")
+	if err == nil {
+		got, canon, ok := zzIntValue(v.(Int))
+		zzAssert(zzAnd(ok, canon), "C10.shift.canonical")
+		var want zzW
+		if left {
+			want = zzWShl(xv, uint(s))
+		} else {
+			want = zzWSar(xv, uint(s))
+		}
+		zzAssert(zzWEq(got, want), "C10.shift.exact")
+	}
+	zzReach("end")
+}
+
+// H10.5b: shift counts at the documented limits: << by 511 accepted, by 512 rejected; huge >> floors.
+func zzH10_shiftLimits() {
+	x, xv := zzSymInt("x", 36)
+	cnt := []int64{511, 512, 513, 1 << 20, 1<<31 - 1, 1 << 31, 1 << 40}[zzChoice("cnt", 7)]
+	vl, errl := Binary(syntax.LTLT, x, MakeInt64(cnt))
+	zzAssert((errl != nil) == (cnt >= 512), "C10.shift.lsh_limit_512")
+	_ = vl
+	vr, errr := Binary(syntax.GTGT, x, MakeInt64(cnt))
+	zzAssert((errr != nil) == (cnt > 1<<31-1), "C10.shift.rsh_count_int32")
+	if errr == nil {
+		got, _, ok := zzIntValue(vr.(Int))
+		zzAssert(zzAnd(ok, zzWEq(got, zzW{xv.hi >> 63, uint64(xv.hi >> 63)})), "C10.shift.rsh_huge_floors")
+	}
+	zzReach("end")
+}
+
+// H10.7a: Int vs Float comparison is exact (not rounded through float64): for an int64 x
+// and a float f with |f| < 2^63 that is an integer, x < f, x == f, x > f agree with the
+// exact comparison of x with f's integer value; for non-integral f with the floor.
+//
+//verif:unwind 200
+//verif:config generic posix64
+func zzH10_intFloatCmp() {
+	xv := zzI64("x")
+	f := zzF64("f")
+	// |f| < 2^62 and f is an integer: then int64(f) is exact
+	zzAssume(zzAnd(f > -4.6e18, f < 4.6e18))
+	fi := int64(f)
+	zzAssume(float64(fi) == f)
+	x := MakeInt64(xv)
+	lt, err1 := Compare(syntax.LT, x, Float(f))
+	eq, err2 := Compare(syntax.EQL, x, Float(f))
+	gt, err3 := Compare(syntax.GT, Float(f), x) // f > x  <=>  x < f
+	zzAssert(zzAnd(err1 == nil, zzAnd(err2 == nil, err3 == nil)), "C10.intfloat.noerr")
+	zzObserve("lt", lt)
+	zzAssert(lt == (xv < fi), "C10.intfloat.lt_exact")
+	zzAssert(eq == (xv == fi), "C10.intfloat.eq_exact")
+	zzAssert(gt == (xv < fi), "C10.intfloat.mirror_exact")
+	zzReach("end")
+}
